@@ -21,7 +21,7 @@ import (
 type EntryFunc func(startTime time.Time, reader io.Reader, writer io.Writer, config *jsonconfig.Config)
 
 func genSink(t *rt.Tape, name string) *env.Sink {
-	lat := []time.Duration{0, 0, time.Millisecond, 7 * time.Millisecond, 50 * time.Millisecond}[t.SW(4, 2, 2, 1, 1)]
+	lat := []time.Duration{0, 0, time.Millisecond, 7 * time.Millisecond, 50 * time.Millisecond, 3 * time.Second, 2 * time.Minute}[t.SW(40, 20, 20, 10, 10, 3, 2)]
 	return &env.Sink{Name: name, Latency: lat, ExtraYields: t.SW(5, 2, 1, 1) * (1 + t.S(4))}
 }
 
@@ -75,10 +75,13 @@ func C11(app string, entry EntryFunc, display bool) func(*hx.Ctx) *hx.Outcome {
 		src := &env.Source{T: t, Data: wire, MaxChunk: []int{1, 16, 512, 4096}[t.S(4)], DataWithErr: t.SBool(1, 3)}
 		cfg := jsonconfig.Config{}
 		if !display {
-			cfg.MessageLogDirectory = c.TempDir()
+			// rtcmfilter: every configuration of its optional logs
+			sw := t.S(4)
+			cfg = jsonconfig.Config{DisplayMessages: sw&1 != 0, RecordMessages: sw&2 != 0, MessageLogDirectory: c.TempDir()}
+			o.Probe(fmt.Sprintf("config:display=%v,record=%v", cfg.DisplayMessages, cfg.RecordMessages))
 		}
 		if c.Detail {
-			o.Sample = map[string]any{"app": app, "segments": gnss.Describe(segs), "wire_len": len(wire), "sink_latency": sink.Latency.String(), "sink_extra_yields": sink.ExtraYields, "max_chunk": src.MaxChunk}
+			o.Sample = map[string]any{"app": app, "display_log": cfg.DisplayMessages, "record_log": cfg.RecordMessages, "segments": gnss.Describe(segs), "wire_len": len(wire), "sink_latency": sink.Latency.String(), "sink_extra_yields": sink.ExtraYields, "max_chunk": src.MaxChunk}
 		}
 		if sink.Latency > 0 {
 			o.Fault("sink:latency")
@@ -171,14 +174,22 @@ func C10(entry EntryFunc) func(*hx.Ctx) *hx.Outcome {
 		s.SetStarveKey([]string{"main.go:1", "main.go", "file_handler", "handler.go"}[t.D(4)])
 		s.Budget = 300*(len(wire)+32) + 30000
 		returned := false
+		atReturn := -1
 		verdict := s.Run(func() {
 			entry(startTime, src, sink, &cfg)
 			returned = true
+			atReturn = len(sink.Buf)
 		})
 		o.Verdict, o.Strategy = verdict, rt.StratNames[s.Strategy]
 		if len(s.Panics) > 0 {
 			o.Fail("C10/panic", "%s", firstLine(s.Panics[0]))
 			return o
+		}
+		if returned && atReturn != len(sink.Buf) {
+			// the program exits when HandleMessages returns: what has not been
+			// written by then is omitted from its output (the output writer only;
+			// the optional logs are judged at quiescence)
+			o.Fail("C10/output-omitted-at-exit", "when HandleMessages returned (the program exits there) %d output bytes had been written, %d at quiescence (display=%v record=%v)", atReturn, len(sink.Buf), cfg.DisplayMessages, cfg.RecordMessages)
 		}
 		if refPanic != "" {
 			o.Fail("C10/panic", "sequential framing panicked: %s", refPanic)
